@@ -83,7 +83,11 @@ func (p *Program) stateVals() ([]int64, []string) {
 // StateAtom is the enum atom over r.state.
 func (p *Program) StateAtom() *Atom {
 	v, l := p.stateVals()
-	return EnumAtom("state", "r.state", v, l)
+	a := EnumAtom("state", "r.state", v, l)
+	// Raft.state only ever holds declared constants: rule STATE-TRANSITIONS reports any
+	// store of a non-constant or undeclared value as undecided/violated.
+	a.Closed = true
+	return a
 }
 
 func enumIdx(at *Atom, label string) int {
